@@ -1,0 +1,14 @@
+//go:build verif
+
+package data
+
+// Contracts checked by /verif/gvc. Comment-only file (build tag verif).
+
+// The statistics option is applied to whatever the aggregator holds for a timer -- including a timer
+// that received no value since the last flush (it is kept, with no values, until it expires).
+//@ func WithHistogramDataPointStatistics
+//@   ensures result != nil
+//@ func WithHistogramDataPointStatistics$1
+//@   floats real
+//@   requires hdp.raw != nil
+//@   modifies everything
